@@ -675,12 +675,13 @@ func (e *Exec) probeAttestation(args []Value) {
 		e.fail("ProbeAttestation maxT must be constant")
 	}
 	maxT := int(mt.i64())
+	tag := "shape@" + msgName + "/"
 	konst := func(label, v string) { e.probes = append(e.probes, probeRec{Label: label, Const: v}) }
-	konst("shape/msg", msgName)
-	konst("shape/att", attName)
-	konst("shape/attesters", pfx)
-	konst("shape/n", fmt.Sprint(len(gs.e)))
-	konst("shape/maxT", fmt.Sprint(maxT))
+	konst(tag+"msg", msgName)
+	konst(tag+"att", attName)
+	konst(tag+"attesters", pfx)
+	konst(tag+"n", fmt.Sprint(len(gs.e)))
+	konst(tag+"maxT", fmt.Sprint(maxT))
 	digest := e.keccak(msg)
 	var hp []*Term
 	for i := 0; i < 32; i++ {
@@ -691,7 +692,7 @@ func (e *Exec) probeAttestation(args []Value) {
 	for j, c := range gs.e {
 		k := e.fromHex(e.asBytes(c.v, "ProbeAttestation"))
 		keys = append(keys, k)
-		e.probes = append(e.probes, probeRec{Label: fmt.Sprintf("shape/keylen/%d", j), T: k.len})
+		e.probes = append(e.probes, probeRec{Label: fmt.Sprintf(tag+"keylen/%d", j), T: k.len})
 	}
 	var prevAddr *SliceV
 	rc := e.reprCap(att)
@@ -711,15 +712,15 @@ func (e *Exec) probeAttestation(args []Value) {
 		ss := tb.Concat(sp...)
 		recok := tb.And(tb.Ult(sp[64], tb.BV(4, 8)), tb.UF("rec_ok", 0, hh, ss))
 		key := e.bytesFromTerm(tb.UF("rec_key", 65*8, hh, ss), 65, false)
-		e.probes = append(e.probes, probeRec{Label: fmt.Sprintf("shape/recok/%d", i), T: recok})
+		e.probes = append(e.probes, probeRec{Label: fmt.Sprintf(tag+"recok/%d", i), T: recok})
 		for j, kj := range keys {
-			e.probes = append(e.probes, probeRec{Label: fmt.Sprintf("shape/member/%d/%d", i, j), T: e.bytesEqual(kj, key)})
+			e.probes = append(e.probes, probeRec{Label: fmt.Sprintf(tag+"member/%d/%d", i, j), T: e.bytesEqual(kj, key)})
 			// same X coordinate as attester j (a non-member with this property is the negated key)
 			var xs []*Term
 			for k := 1; k < 33; k++ {
 				xs = append(xs, tb.Eq(e.byteAt(kj, k), e.byteAt(key, k)))
 			}
-			e.probes = append(e.probes, probeRec{Label: fmt.Sprintf("shape/xeq/%d/%d", i, j), T: tb.And(tb.Eq(kj.len, tb.BV(65, 64)), tb.And(xs...))})
+			e.probes = append(e.probes, probeRec{Label: fmt.Sprintf(tag+"xeq/%d/%d", i, j), T: tb.And(tb.Eq(kj.len, tb.BV(65, 64)), tb.And(xs...))})
 		}
 		var xs, ys []*Term
 		xs = append(xs, tb.BV(0, bigW-256))
@@ -735,7 +736,7 @@ func (e *Exec) probeAttestation(args []Value) {
 		e.injective("ethaddr", tb.Concat(x, y), ao)
 		addr := e.bytesFromTerm(ao, 20, false)
 		if i > 0 {
-			e.probes = append(e.probes, probeRec{Label: fmt.Sprintf("shape/less/%d", i), T: e.bytesLess(prevAddr, addr)})
+			e.probes = append(e.probes, probeRec{Label: fmt.Sprintf(tag+"less/%d", i), T: e.bytesLess(prevAddr, addr)})
 		}
 		prevAddr = addr
 	}
